@@ -235,12 +235,25 @@ func genLive(seed uint64, idx uint64, thorough bool) tlive.Scenario {
 			add(tlive.Act{G: 0, Op: "call", Fut: newFut(), DUs: base + int64(i)*step})
 		}
 		var victims []int
-		for i := 1; i < n; i += 2 {
-			victims = append(victims, i)
-		}
-		for i := len(victims) - 1; i > 0; i-- {
-			j := r.Intn(i + 1)
-			victims[i], victims[j] = victims[j], victims[i]
+		switch r.Intn(3) {
+		case 0: // every second one, shuffled
+			for i := 1; i < n; i += 2 {
+				victims = append(victims, i)
+			}
+			for i := len(victims) - 1; i > 0; i-- {
+				j := r.Intn(i + 1)
+				victims[i], victims[j] = victims[j], victims[i]
+			}
+		case 1: // the later half, from the back: the futures being cancelled at any moment are the last
+			// slots of the slice, which is where heap.Remove takes its replacement from
+			for i := n - 1; i >= n/2; i-- {
+				victims = append(victims, i)
+			}
+		case 2: // the earlier half, from the front: every removal sifts the replacement down through the
+			// first slots, which hold the futures the other goroutines are about to cancel
+			for i := 0; i < n/2; i++ {
+				victims = append(victims, i)
+			}
 		}
 		shares := make([][]int, sc.NG-1)
 		for k, v := range victims {
